@@ -132,6 +132,9 @@ def _rtol_for(variant, default):
 _P3 = {("A", "R_BC", "D"): {"p_break": True}, ("A", "R_BD", "C"): {"p_break": True}, ("A", "R_CD", "B"): {"p_break": True}}
 _CM = {"align_ref": "center_mass", "center_mass": True}
 _HP = {("R_BC", "B", "C"): {"model": "helicity_parity"}}
+_ST_CA = {"preprocessor": "cached_amp", "amp_model": "cached_amp"}
+_ST_CS = {"preprocessor": "cached_shape", "amp_model": "cached_shape"}
+_ST_BF = {"preprocessor": "cached_angle", "amp_model": "base_factor"}
 
 # variant -> (structure, [(label, chains, vertex options, extra data options)], parity admissible?)
 C01_CATALOGUE = {
@@ -161,6 +164,19 @@ C01_CATALOGUE = {
         # (fermion -> fermion + boson vertex R_BC(3/2-) -> B(1/2+) C(0-), interfering with chains that do not contain it)
         ("f4@helicity_parity", "f4", [("2ch", ["cas", "cas2"], _HP, None), ("3ch", ["cas", "cas2", "br"], _HP, None)], True),
     ],
+    # the statement is about the density the user obtains, whichever evaluation strategy the data section selects: the strategies that keep
+    # per-event tensors computed when the data object is built (pre-cached angular amplitude DecayChain.get_angle_amp, cached line shapes,
+    # cached angle factors) carry their own copies of the final-state alignment contraction.  Structures: spinning three-body decays with
+    # three chains of three different topologies (the alignment of the spinning finals differs between the chains and depends on the frame
+    # through the Wigner rotation), no identical particles.  Same transformations, same tolerance (same products, other association order).
+    "strat3": [
+        ("sh00@cached_amp", "sh00", [("3ch", None, None, _ST_CA), ("2ch", ["bc", "cd"], None, _ST_CA)], True),
+        ("s1hh@cached_amp", "s1hh", [("3ch", None, None, _ST_CA)], True),
+        ("s110@cached_amp", "s110", [("3ch", None, None, _ST_CA)], True),
+        ("sh00@cached_shape", "sh00", [("3ch", None, None, _ST_CS)], True),
+        ("s110@cached_shape", "s110", [("3ch", None, None, _ST_CS)], True),
+        ("s1hh@cached_angle+base_factor", "s1hh", [("3ch", None, None, _ST_BF)], True),
+    ],
 }
 
 
@@ -174,13 +190,16 @@ def _c01_run(ctx, part):
         tnote = ("|diff| <= %g*max + 1e-10*mean" % rtol) + (
             "; 1e-6 because the identity alignment of the shared-vertex particle is computed as beta = acos(1 - O(eps)) = O(sqrt(eps)) ~ 1.5e-8"
             if rtol != C01_RTOL else "")
+        strat = sorted({(d.get("preprocessor", "default"), d.get("amp_model", "default")) for _, _, _, d in cfgs if d and ("preprocessor" in d or "amp_model" in d)})
+        via = "" if not strat else "evaluated through data: {preprocessor: %s, amp_model: %s} (data object built by cal_angle separately for every frame): " % strat[0]
+        assert len(strat) <= 1, strat
         cl = {
-            "finite_nonneg": "density is finite and >= 0 for every event and every transformed copy",
-            "rotation": "density(R p) == density(p) for axis/random rotations R (%s)" % tnote,
-            "boost": "density(L p) == density(p) for boosts beta in {1e-8,0.3,0.9,0.999} x 6 directions and boost+rotation (%s, not scaled by gamma^2)" % tnote,
+            "finite_nonneg": via + "density is finite and >= 0 for every event and every transformed copy",
+            "rotation": via + "density(R p) == density(p) for axis/random rotations R (%s)" % tnote,
+            "boost": via + "density(L p) == density(p) for boosts beta in {1e-8,0.3,0.9,0.999} x 6 directions and boost+rotation (%s, not scaled by gamma^2)" % tnote,
         }
         if parity_ok:
-            cl["parity"] = "density(P p) == density(p) under spatial inversion (3-body, or every vertex parity conserving)"
+            cl["parity"] = via + "density(P p) == density(p) under spatial inversion (3-body, or every vertex parity conserving)"
         if ident:
             cl["exchange"] = "density unchanged under exchanging the momenta of the declared identical particles"
         for k, c in cl.items():
@@ -206,7 +225,8 @@ def _c01_run(ctx, part):
                 cfg = M.build_config(sname, chains=chains, data=dd, vertex=vertex)
                 config, amp = _load(ctx, cfg)
                 M.set_params(amp, M.random_params(amp, ctx.seed + 1))
-                d = _density_many(config, amp, sname, big).reshape(len(labels) + 1, n_ev)
+                with _quiet():  # cached_shape prints which chains it folds
+                    d = _density_many(config, amp, sname, big).reshape(len(labels) + 1, n_ev)
                 cname = "%s[%s,random_z=%s]" % (variant, label, rz)
                 fin = np.isfinite(d) & (d >= 0)
                 w = None
@@ -257,6 +277,19 @@ def c01_int3(ctx):
        bound=_C01_BOUND % ("(1/2;1/2,0,0) [+p_break], (1;1,1/2,1/2), (0;0,1/2,1/2) identical fermions", "64 (quick) / 2048 (thorough)"))
 def c01_half3(ctx):
     _c01_run(ctx, "half3")
+
+
+@group(["C01"], "iface.C01/frame_3body_strategies",
+       _C01_FUNCS + ["amp.core:DecayChain.get_angle_amp", "amp.core:DecayGroup.get_factor_angle_amp", "amp.core:DecayGroup.get_m_dep",
+                     "amp.preprocess:CachedAmpPreProcessor.build_cached", "amp.preprocess:CachedShapePreProcessor.build_cached",
+                     "amp.preprocess:CachedAnglePreProcessor.build_cached", "amp.amp:CachedAmpAmplitudeModel.pdf", "amp.amp:CachedShapeAmplitudeModel.pdf",
+                     "amp.amp:FactorAmplitudeModel.pdf"], env="tf", kind="B",
+       bound=_C01_BOUND % ("(1/2;1/2,0,0), (1;1,1/2,1/2), (1;1,1,0), three chains of three topologies (and one two-chain subset), each evaluated through a non-default "
+                           "(preprocessor, amp_model) pair: cached_amp/cached_amp on all three, cached_shape/cached_shape on (1/2;1/2,0,0) and (1;1,1,0), "
+                           "cached_angle/base_factor on (1;1,1/2,1/2); no identical particles", "64 (quick) / 2048 (thorough)"),
+       assumes=["the data object of every frame is built from that frame's momenta through the public cal_angle (nothing is cached across frames)"])
+def c01_strat3(ctx):
+    _c01_run(ctx, "strat3")
 
 
 @group(["C01"], "iface.C01/frame_4body", _C01_FUNCS, env="tf", kind="B",
@@ -1331,10 +1364,21 @@ C0305_SEL_ENTRIES = [
     ("s110x@float", "s110x", C0305_SEL_FLOAT, [("cached_shape", "cached_shape")], C05_PARAM_PAIRS),
 ]
 C0305_COMBINE = [[0, 2], [1, 2], [1, 3], [2, 1, 0], [1, 2, 3], [0, 1, 2, 3]]
+# Compiled evaluation with data: {use_tf_function: True, no_id_cached: True} (the options of the lazy-batch configurations): the wrapped
+# tf.function is used from the FIRST call on, whatever data object is passed, and a concrete function bakes in the chain selection that
+# was active when it was traced.  The entry traces it with all chains selected (first call), then evaluates every sub-selection, then the
+# full model again: each must be the plain eager default density of THAT selection (C05), i.e. the partial sum of the selected chains (C03).
+# (label, structure, floating line shapes, pairs in the quick tier, pairs in the thorough tier)
+C0305_SEL_COMPILED = [
+    ("s110x@tf+noid", "s110x", None, [("default", "default"), ("cached_amp", "cached_amp")], C05_PAIRS),
+]
+_C0305_COMPILED_NOTE = ("data: {use_tf_function: True, no_id_cached: True}, the compiled function traced by a first call with ALL chains selected before any "
+                        "selection is made (a trace of one selection must not answer for another selection); ")
 
 
-def _c0305_selection(ctx, acc, label, sname, res_over, pairs, variants, n_ev, xla, short_for=None):
-    """short_for: pairs that run the short selection list only (None: every pair runs every selection)"""
+def _c0305_selection(ctx, acc, label, sname, res_over, pairs, variants, n_ev, xla, short_for=None, note=""):
+    """short_for: pairs that run the short selection list only (None: every pair runs every selection); note: prefix of the clauses (options
+    common to all variants of this entry)"""
     keys = list(M.STRUCTS[sname]["chains"])
     n = len(keys)
     full = list(range(n))
@@ -1408,7 +1452,7 @@ def _c0305_selection(ctx, acc, label, sname, res_over, pairs, variants, n_ev, xl
     for pre, am in pairs:
         st = _strat(pre, am)
         tol_text = (_C05_TOL_TEXT % base) if (pre, am) in kin else "rtol %g" % base
-        head = "preprocessor=%s amp_model=%s, chains declared in the order %s: " % (pre, am, " ".join(topo))
+        head = note + "preprocessor=%s amp_model=%s, chains declared in the order %s: " % (pre, am, " ".join(topo))
         cl = {
             "selection_equals_default": head + "with all chains selected (first call) and for every non-empty subset S of the chains selected through set_used_chains (both orders), "
                                         "set_used_res, temp_used_res or partial_weight, the density returned by the model == the plain eager default density under the same selection; " + tol_text,
@@ -1526,7 +1570,8 @@ def _c0305_selection(ctx, acc, label, sname, res_over, pairs, variants, n_ev, xl
              "model) with 3 of 4 line shapes floating; eager (thorough: + use_tf_function); every non-empty subset of the chains through set_used_chains in increasing "
              "and decreasing order (26), every non-empty subset of the resonances through set_used_res and temp_used_res (15 + 15), partial_weight with the default and "
              "6 explicit combinations (quick: the pairs other than cached_amp, cached_shape, cached_angle+base_factor run the 15 increasing set_used_chains subsets, temp_used_res of the 4 single "
-             "resonances and the default partial_weight only); 24 (quick) / 64 (thorough) seeded phase-space events; one seeded parameter point; tolerance of the C05 density obligations "
+             "resonances and the default partial_weight only); the same structure with use_tf_function + no_id_cached, function traced with all chains before the "
+             "selections (quick: default and cached_amp on the short selection list; thorough: the 8 pairs, every selection); 24 (quick) / 64 (thorough) seeded phase-space events; one seeded parameter point; tolerance of the C05 density obligations "
              "(rtol 1e-9, measured conditioning <= 1e-6 for p4_directly, floor 1e-10 x mean)",
        assumes=["selections are made after the data object was built (what fit fractions and partial-wave plots do)"])
 def c0305_selection(ctx):
@@ -1540,6 +1585,11 @@ def c0305_selection(ctx):
         # of single resonances, default partial_weight).  thorough: every pair runs every selection.
         short_for = [pr for pr in C05_PAIRS if pr not in C05_CACHED_CORE] if quick else None
         _c0305_selection(ctx, acc, label, sname, res_over, pq if quick else pt, ("eager",) if quick else ("eager", "tf"), n_ev, xla, short_for=short_for)
+    for label, sname, res_over, pq, pt in C0305_SEL_COMPILED:
+        # quick: default and cached_amp, both on the short list (the subject is which selection the compiled function answers for, not the pairing of
+        # per-chain tensors); thorough: every pair, every selection
+        _c0305_selection(ctx, acc, label, sname, res_over, pq if quick else pt, ("tf+noid",), n_ev, xla, short_for=list(pq) if quick else None,
+                         note=_C0305_COMPILED_NOTE)
     acc.flush()
 
 
